@@ -144,6 +144,16 @@ func checkC02(c *Ctx) (int, error) {
 			s: encStream("std", "flate", []int{-2, -2, 6, 1}[li%4], DataSpec{Class: cl, Seed: rng.Int63n(1 << 30), Len: 400000 + rng.Intn(800000) + li}, nil)})
 	}
 	var cases []*RCase
+	// window-edge sweeps: every pattern one decoding-table lookup can yield (up to three literals,
+	// literals + a length symbol) starting at every output offset around the two places where the
+	// decode loops hand over - the window end and the vector loop's margin before it -, with the
+	// compressed bytes arriving all at once, byte by byte, and in two pieces split at every
+	// position near the pattern
+	edges, err := edgeCases(c, "C02")
+	if err != nil {
+		return 0, err
+	}
+	cases = append(cases, edges...)
 	for i, st := range streams {
 		for _, arch := range c.Levels {
 			src := plainSrc(chunkSchedules[(i+arch)%len(chunkSchedules)])
@@ -166,7 +176,8 @@ func checkC02(c *Ctx) (int, error) {
 		}
 		c.ev.nontrivial(st.name + fmt.Sprint(descJSON(st)))
 	}
-	c.ev.Rule = fmt.Sprintf("%d synthesised streams (1-3 blocks; stored/fixed/dynamic; code shapes flat, skewed to 15 bits, random, frequency-based, single-code and empty distance trees; token classes incl. overlapping copies, distance 32768, length 258; header options) drawn by TLC from StreamGen, plus %d encoder-produced streams (compress/flate -2,0,1,6,9; fastgo -2,1,2; with Flush points) and streams whose blocks end at and around the 64 KiB / 96 KiB / 128 KiB output offsets where the inflater's window fills, each at every acceleration level with rotating Read-size and source schedules; distinct by descriptor", nSynth, nEnc)
+	c.ev.Extra["window_edge_cases"] = len(edges)
+	c.ev.Rule = fmt.Sprintf("%d synthesised streams (1-3 blocks; stored/fixed/dynamic; code shapes flat, skewed to 15 bits, random, frequency-based, single-code and empty distance trees; token classes incl. overlapping copies, distance 32768, length 258 in both spellings; header options incl. the longest header the format allows) drawn by TLC from StreamGen, window-edge sweeps (lookup patterns x output offsets around the window end and the vector loop's margin x split points of the input), plus %d encoder-produced streams (compress/flate -2,0,1,6,9; fastgo -2,1,2; with Flush points) and streams whose blocks end at and around the 64 KiB / 96 KiB / 128 KiB output offsets where the inflater's window fills, each at every acceleration level with rotating Read-size and source schedules; distinct by descriptor", nSynth, nEnc)
 	for _, st := range spread(streams) {
 		c.ev.sample(descJSON(st))
 	}
@@ -356,6 +367,12 @@ func checkC18(c *Ctx) (int, error) {
 		streams = append(streams, st)
 	}
 	var cases []*RCase
+	// the window-edge sweeps (see C02): the vector decode loops hand over to the portable ones there
+	edges, err := edgeCases(c, "C18")
+	if err != nil {
+		return 0, err
+	}
+	cases = append(cases, edges...)
 	for i, st := range streams {
 		src := plainSrc(chunkSchedules[i%len(chunkSchedules)])
 		if i%2 == 0 {
@@ -368,7 +385,8 @@ func checkC18(c *Ctx) (int, error) {
 		}
 		c.ev.nontrivial(st.name + fmt.Sprint(descJSON(st)) + fmt.Sprint(st.s.Mut))
 	}
-	c.ev.Rule = fmt.Sprintf("%d inputs (valid and faulty StreamGen descriptors, encoder streams, mutated/truncated streams) x all %d acceleration levels of this host, same source and Read schedule per input; group clause: the outcome at every level equals the outcome at the lowest level; distinct by input", len(streams), len(c.Levels))
+	c.ev.Extra["window_edge_cases"] = len(edges)
+	c.ev.Rule = fmt.Sprintf("%d inputs (valid and faulty StreamGen descriptors, encoder streams, mutated/truncated streams) and the window-edge sweeps of C02 x all %d acceleration levels of this host, same source and Read schedule per input; group clause: the outcome at every level equals the outcome at the lowest level; distinct by input", len(streams), len(c.Levels))
 	for _, st := range spread(streams) {
 		c.ev.sample(descJSON(st))
 	}
@@ -396,4 +414,77 @@ func checkC18(c *Ctx) (int, error) {
 		}
 	}
 	return c.writerRun("c18w", c.spreadArch(wcases, true), false)
+}
+
+// edgeCases: see edgeStream.  quick: the patterns ending in the longest copies, offsets next to
+// the two hand-over points of the first window fill; thorough: every pattern, the whole margin,
+// both the first and the second fill.
+func edgeCases(c *Ctx, prefix string) ([]*RCase, error) {
+	pats := edgePatterns[:3]
+	bases := []int{65536}
+	var offs []int
+	for d := -262; d <= -255; d++ {
+		offs = append(offs, d)
+	}
+	for d := -3; d <= 2; d++ {
+		offs = append(offs, d)
+	}
+	nSplit := 24
+	if c.Tier == "thorough" {
+		pats, bases, offs, nSplit = edgePatterns, []int{65536, 98304}, nil, 60
+		for d := -282; d <= -250; d++ {
+			offs = append(offs, d)
+		}
+		for d := -6; d <= 3; d++ {
+			offs = append(offs, d)
+		}
+	}
+	var cases []*RCase
+	id := 0
+	for _, base := range bases {
+		for pi, pat := range pats {
+			for li, d := range cross(offs, 3) {
+				lead := li % 3
+				tail := []string{"stored", "fixed", "stored", "final"}[(pi+d+lead+1000)%4]
+				b, want, patByte, err := edgeStream(pat, base+d, lead, tail)
+				if err != nil {
+					return nil, err
+				}
+				if o := oracleFor("flate", b, nil, true); o.StdVerdict != "eof" || o.RefVerdict != "eof" || !o.Same || len(o.RefOut) != len(want) {
+					return nil, fmt.Errorf("oracle disagreement on edge stream %s@%d: std %s ref %s", pat, base+d, o.StdVerdict, o.RefVerdict)
+				}
+				st := RStream{Hex: hexOf(b)}
+				scheds := [][]int{{0}, {1}}
+				for s := maxInt(1, patByte-4); s < len(b) && s < patByte-4+nSplit; s++ {
+					scheds = append(scheds, []int{s, 1 << 20})
+				}
+				for si, ch := range scheds {
+					for _, arch := range c.Levels {
+						cs := &RCase{ID: fmt.Sprintf("%s-edge%d@A%d", prefix, id, arch), Kind: "flate", Arch: arch}
+						if prefix == "C18" {
+							cs.Group, cs.GClause = fmt.Sprintf("C18-edge%d", id), "C18.same_outcome"
+						}
+						cases = append(cases, cs)
+						*cs = RCase{ID: cs.ID, Kind: "flate", Arch: arch, Group: cs.Group, GClause: cs.GClause,
+							Tag:  fmt.Sprintf("edge-%s-%d%+d-lead%d-%s|%v", pat, base, d, lead, tail, ch),
+							Segs: []RSeg{{Stream: st, Src: plainSrc(ch), Reads: [][]int{{70000}, {4096}, {1 << 20}}[si%3], Multi: true}}}
+					}
+					id++
+				}
+				c.ev.nontrivial(fmt.Sprintf("edge-%s-%d%+d-%d-%s", pat, base, d, lead, tail))
+			}
+		}
+	}
+	return cases, nil
+}
+
+// cross repeats every element n times in a row (index i of the result belongs to variant i%n).
+func cross(a []int, n int) []int {
+	var out []int
+	for _, x := range a {
+		for i := 0; i < n; i++ {
+			out = append(out, x)
+		}
+	}
+	return out
 }
